@@ -244,10 +244,10 @@ def run_random_isn(out, tier, seed):
     rng = random.Random(seed + 12)
     offs = [0, 1, 2, 500, 1000, 1449, 1450, 1451, 2000, 2900, 3000, 5000, 21845, 43690, 65535, 65536, 70000, 100000]
     total = {"runs": 0, "isn_mismatch": 0, "events": 0}
-    for prof in ("close", "data", "late"):
+    for prof in ("close", "data", "late", "inject"):
         d = workdir("tcp-C12")
         sp0, tp0 = os.path.join(d, "isn-" + prof + ".sched0.ndjson"), os.path.join(d, "isn-" + prof + ".trace0.ndjson")
-        n = (400 if prof != "late" else 150) if tier == "thorough" else (80 if prof != "late" else 30)
+        n = (400 if prof != "late" else 150) if tier == "thorough" else (80 if prof not in ("late",) else 30)
         hv_hangsafe(HV_CORE, ["tcb-drive", "--seed", str(seed * 977 + 5), "--profile", prof, "--steps", "110", "--out", tp0, "--sched", sp0], n)
         scheds = read_ndjson(sp0)
         for s in scheds:
